@@ -458,6 +458,84 @@ func c15Concurrent(r *rand.Rand, workers, opsPer int, sh *core.Shard) (sig, what
 	return "not-linearizable", fmt.Sprintf("concurrent history of %d operations over %d workers is not linearizable against the set model (Select must return a currently registered upstream of that endpoint, or none iff empty) %v", len(history), workers, bad), false
 }
 
+// c15Handover: the endpoint's last registered upstream disconnects at the very
+// moment its replacements connect (an agent reconnecting while the old session is
+// torn down), with selectors running. Goroutines are released together; judged at
+// quiescence only: every replacement is registered, so k consecutive selections
+// return each of them exactly once, and after they disconnect nothing is selectable.
+func c15Handover(rounds, adders, selectors int, sh *core.Shard) (sig, what string) {
+	rg := newRig()
+	for round := 0; round < rounds; round++ {
+		ep := fmt.Sprintf("handover-%d", round%3)
+		old := &fakeUp{ep: ep, id: 1000}
+		rg.mgr.AddConn(old)
+		var news []*fakeUp
+		for i := 0; i < adders; i++ {
+			news = append(news, &fakeUp{ep: ep, id: i + 1})
+		}
+		start := make(chan struct{})
+		stop := make(chan struct{})
+		var wg, swg sync.WaitGroup
+		var bad atomic.Value
+		wg.Add(1)
+		go func() { defer wg.Done(); <-start; rg.mgr.RemoveConn(old) }()
+		for _, u := range news {
+			wg.Add(1)
+			go func(u *fakeUp) { defer wg.Done(); <-start; rg.mgr.AddConn(u) }(u)
+		}
+		for i := 0; i < selectors; i++ {
+			swg.Add(1)
+			go func() {
+				defer swg.Done()
+				<-start
+				for {
+					select {
+					case <-stop:
+						return
+					default:
+					}
+					got, ok := rg.mgr.Select(ep, false)
+					if ok && got == nil {
+						bad.Store("Select returned ok with a nil upstream")
+					}
+					if fu, isFake := got.(*fakeUp); ok && (!isFake || fu.ep != ep) {
+						bad.Store("Select returned " + describe(got, ok) + " for endpoint " + ep)
+					}
+				}
+			}()
+		}
+		close(start)
+		wg.Wait()
+		close(stop)
+		swg.Wait()
+		sh.Count("handover_rounds", 1)
+		if b := bad.Load(); b != nil {
+			return "select-invalid", fmt.Sprintf("handover round %d: %v", round, b)
+		}
+		seen := map[*fakeUp]int{}
+		for i := 0; i < adders; i++ {
+			got, ok := rg.mgr.Select(ep, false)
+			fu, isFake := got.(*fakeUp)
+			if !ok || !isFake {
+				return "select-from-nonempty-missed", fmt.Sprintf("handover round %d: %d upstreams connected while the last old one disconnected; at quiescence Select returned %s", round, adders, describe(got, ok))
+			}
+			seen[fu]++
+		}
+		for _, u := range news {
+			if seen[u] != 1 {
+				return "unfair-window", fmt.Sprintf("handover round %d: %d upstreams connected while the last old one disconnected; in %d consecutive selections at quiescence upstream %d was returned %d times (old one: %d times)", round, adders, adders, u.id, seen[u], seen[old])
+			}
+		}
+		for _, u := range news {
+			rg.mgr.RemoveConn(u)
+		}
+		if got, ok := rg.mgr.Select(ep, false); ok {
+			return "select-from-empty", fmt.Sprintf("handover round %d: every upstream disconnected but Select returned %s", round, describe(got, ok))
+		}
+	}
+	return "", ""
+}
+
 func runC15(sh *core.Shard, a props.Args) {
 	nseq := a.Pick(6000, 300000)
 	nconc := a.Pick(400, 24000)
@@ -513,6 +591,24 @@ func runC15(sh *core.Shard, a props.Args) {
 			}
 		}
 	}
+	{
+		fmt.Printf("CASE C15 handover races\n")
+		var sig, what string
+		func() {
+			defer func() {
+				if p := recover(); p != nil {
+					sig, what = "panic", fmt.Sprintf("selector panicked during a handover race: %v", p)
+				}
+			}()
+			sig, what = c15Handover(a.Pick(1500, 20000), 1+a.Shard%3, 2+a.Shard%4, sh)
+		}()
+		sh.Eval()
+		if sig != "" {
+			sh.Violate(sig, what, map[string]any{"kind": "handover"})
+			return
+		}
+		sh.Nontrivial(core.Hash("handover", a.Shard))
+	}
 	for i := 0; i < nconc; i++ {
 		if !a.Mine(i) {
 			continue
@@ -541,12 +637,12 @@ func runC15(sh *core.Shard, a props.Args) {
 func init() {
 	props.Register(&props.Prop{
 		ID: "C15", Level: "exploration", Race: true,
-		Rule: "the real LoadBalancedManager with harness-defined upstream values over near-miss endpoint ids: (a) seeded sequential histories of add / remove (a member, the one Select would return next, the last one, a non-member, everything) / select(allowRemote=false) / select(allowRemote=true) with a remote node injected into the routing table; oracle after every call: the result is a currently registered upstream of exactly that endpoint or none iff the set is empty, never a remote node when forwarding is not allowed, local preferred over remote, any n consecutive selections over an unchanged set of n are a permutation, every remaining member is returned within 2n selections at the end, no panic; (b) 4-16 goroutines issuing add/remove/select with every call stamped (invoke/return) from one atomic counter, the history checked with porcupine against the set model partitioned by endpoint, under the race detector. Distinct = hash of the operation list (sequential) or round parameters (concurrent).",
+		Rule: "handover races (1500 rounds per shard, thorough 20000): the endpoint's last registered upstream disconnects while 1-3 replacements connect and 2-5 selectors run, all released together; at quiescence k consecutive selections return each of the k replacements exactly once and nothing is selectable after they disconnect. Further: the real LoadBalancedManager with harness-defined upstream values over near-miss endpoint ids: (a) seeded sequential histories of add / remove (a member, the one Select would return next, the last one, a non-member, everything) / select(allowRemote=false) / select(allowRemote=true) with a remote node injected into the routing table; oracle after every call: the result is a currently registered upstream of exactly that endpoint or none iff the set is empty, never a remote node when forwarding is not allowed, local preferred over remote, any n consecutive selections over an unchanged set of n are a permutation, every remaining member is returned within 2n selections at the end, no panic; (b) 4-16 goroutines issuing add/remove/select with every call stamped (invoke/return) from one atomic counter, the history checked with porcupine against the set model partitioned by endpoint, under the race detector. Distinct = hash of the operation list (sequential) or round parameters (concurrent).",
 		Assumptions: []string{
 			"an upstream object is registered at most once",
 			"round-robin order itself is not modelled in the concurrent check (only validity); fairness is judged on sequential histories",
 		},
-		RequireCounters: []string{"fair_windows_checked", "remote_selections", "concurrent_histories_checked", "porcupine_operations", "churn_patterns"},
+		RequireCounters: []string{"fair_windows_checked", "remote_selections", "concurrent_histories_checked", "porcupine_operations", "churn_patterns", "handover_rounds"},
 		MaxCounters:     []string{"churn_max_wait"},
 		Run:             runC15,
 	})
